@@ -28,6 +28,8 @@ type vConn struct {
 	faults    int
 	closed    bool
 	failWrite bool
+	faultAt   int    // position (1-based, in write order) of the request that was answered with a fault
+	order     []byte // caller tags in the order their requests were written
 }
 
 const (
@@ -36,6 +38,7 @@ const (
 	vsReadError
 	vsTruncated
 	vsBadLength
+	vsWrongIDHeaderOnly // a frame header with a foreign correlation id and nothing after it
 	vsKinds
 )
 
@@ -57,8 +60,10 @@ func (c *vConn) Write(p []byte) (int, error) {
 		kind = vChoose("server", vsKinds)
 		if kind != vsOK {
 			c.faults--
+			c.faultAt = c.written
 		}
 	}
+	c.order = append(c.order, tag)
 	resp := []byte{0, 0, 0, 6, byte(corr >> 24), byte(corr >> 16), byte(corr >> 8), byte(corr), 0, tag}
 	switch kind {
 	case vsWrongID:
@@ -66,6 +71,11 @@ func (c *vConn) Write(p []byte) (int, error) {
 		vAssume(other != corr)
 		resp[4], resp[5], resp[6], resp[7] = byte(other>>24), byte(other>>16), byte(other>>8), byte(other)
 		c.queue <- vFrame{data: resp}
+	case vsWrongIDHeaderOnly:
+		other := vInt32("wrongCorrelationID")
+		vAssume(other != corr)
+		resp[4], resp[5], resp[6], resp[7] = byte(other>>24), byte(other>>16), byte(other>>8), byte(other)
+		c.queue <- vFrame{data: resp[:8]}
 	case vsReadError:
 		c.queue <- vFrame{err: errVRead}
 	case vsTruncated:
@@ -161,6 +171,14 @@ func verifHarness_C14_callers() {
 	} else {
 		vAssert(failed == 0, "no-fault-no-error")
 	}
+	// a fault is a connection fault: the request it hit and every request written after it fail
+	if conn.faultAt > 0 {
+		for pos, tag := range conn.order {
+			if pos+1 >= conn.faultAt {
+				vAssert(results[int(tag)-10].err != nil, "every-call-from-the-fault-on-returns-an-error")
+			}
+		}
+	}
 	vAssert(conn.maxOnWire <= maxOpen, "at-most-MaxOpenRequests-on-the-wire")
 	vAssert(b.Close() == nil && conn.closed, "close-completes")
 	vReach()
@@ -227,5 +245,31 @@ func verifHarness_C14_receiverHeader() {
 	}
 	vCover("delivered", delivered)
 	vCover("mismatch-rejected", !delivered)
+	vReach()
+}
+
+// After a frame with a foreign correlation id the connection is dead even if the stream that
+// follows is perfectly aligned and valid for the next caller.
+func verifHarness_C14_mismatchIsSticky() {
+	conf := NewConfig()
+	want := vInt32("expectedID")
+	other := vInt32("foreignID")
+	vAssume(other != want)
+	hdr1 := []byte{0, 0, 0, 6, byte(other >> 24), byte(other >> 16), byte(other >> 8), byte(other)}
+	n := want + 1
+	frame2 := []byte{0, 0, 0, 6, byte(n >> 24), byte(n >> 16), byte(n >> 8), byte(n), 0, 0}
+	conn := &vConn{queue: make(chan vFrame, 4)}
+	conn.queue <- vFrame{data: hdr1}
+	conn.queue <- vFrame{data: frame2}
+	conn.queue <- vFrame{err: errVRead}
+	b := vBrokerLiteral(conf, conn, 2)
+	pr := responsePromise{correlationID: want, packets: make(chan []byte, 1), errors: make(chan error, 1)}
+	pr2 := responsePromise{correlationID: n, packets: make(chan []byte, 1), errors: make(chan error, 1)}
+	b.responses <- pr
+	b.responses <- pr2
+	close(b.responses)
+	b.responseReceiver()
+	vAssert(len(pr.errors) == 1 && len(pr.packets) == 0, "foreign-correlation-id-not-delivered")
+	vAssert(len(pr2.errors) == 1 && len(pr2.packets) == 0, "connection-stays-dead-after-a-mismatch")
 	vReach()
 }
